@@ -109,13 +109,19 @@ impl Rule for OracleRule {
     }
 }
 
+thread_local! {
+    /// `Some(a)`: expectation `a` (a >= 1) has the very same rule as expectation `a - 1` (same text, same verdict on every line)
+    pub static ALIAS: std::cell::RefCell<Option<usize>> = std::cell::RefCell::new(None);
+}
+
 pub fn make_expectations(q: &[u8]) -> Vec<Expectation> {
     let maker = ExpectationMaker::new(RuleRegistry::default());
+    let alias = ALIAS.with(|a| *a.borrow());
     q.iter()
         .enumerate()
         .map(|(i, qc)| {
             let mut e = maker.parse("x").expect("base expectation parses");
-            e.rule = Box::new(OracleRule(i));
+            e.rule = Box::new(OracleRule(if alias == Some(i) && i > 0 { i - 1 } else { i }));
             e.optional = *qc == b'?' || *qc == b'*';
             e.multiline = *qc == b'*' || *qc == b'+';
             e
@@ -351,6 +357,15 @@ pub fn main(args: &[String]) -> i32 {
             };
             writeln!(w, "# q={} m={} nl={}", qs, m, nl as u8).unwrap();
             total += explore(q, m, nl, false, &mut w);
+            // the same list with two neighbouring expectations that are the very same rule
+            if std::env::var("VERIF_E3_ALIAS").is_ok() {
+                for a in 1..n {
+                    ALIAS.with(|x| *x.borrow_mut() = Some(a));
+                    writeln!(w, "# q={} m={} nl={} alias={}", qs, m, nl as u8, a).unwrap();
+                    total += explore(q, m, nl, false, &mut w);
+                    ALIAS.with(|x| *x.borrow_mut() = None);
+                }
+            }
         }
     }
     w.flush().unwrap();
@@ -366,6 +381,7 @@ pub fn replay(v: &serde_json::Value) -> serde_json::Value {
     let m = v["m"].as_u64().unwrap() as usize;
     let nl = v["nl"].as_bool().unwrap_or(true);
     let n = q.len();
+    ALIAS.with(|x| *x.borrow_mut() = v["alias"].as_u64().map(|a| a as usize));
     let mat: Vec<Vec<bool>> = (0..n)
         .map(|i| {
             (0..m)
